@@ -172,3 +172,208 @@ theorem spec_okOr {m : M} (r : Bool × M) (h : Frame m r.2) : (okOr r).Spec m :=
   · exact h.toKeep
 
 end KoordVerif.C17
+
+namespace KoordVerif.C17
+
+/-! ### stages -/
+
+theorem ok1 : CondOK ⟨CT.resvCreated, b, r, g⟩ := Or.inl (by decide)
+theorem ok2 : CondOK ⟨CT.resvScheduled, b, r, g⟩ := Or.inl (by decide)
+theorem ok5 : CondOK ⟨CT.podScheduled, b, r, g⟩ := Or.inl (by decide)
+theorem ok6 : CondOK ⟨CT.podBound, b, r, g⟩ := Or.inl (by decide)
+theorem ok7 : CondOK ⟨CT.boundPodReady, b, r, g⟩ := Or.inl (by decide)
+theorem ok8 : CondOK ⟨CT.resvBound, b, r, g⟩ := Or.inl (by decide)
+theorem ok4t : CondOK ⟨CT.eviction, true, r, g⟩ := Or.inr (Or.inl rfl)
+theorem ok4e : CondOK ⟨CT.eviction, b, Rs.evicting, g⟩ := Or.inr (Or.inr rfl)
+
+theorem keep_deleteReservation (m : M) : Keep m (deleteReservation m).2 := by
+  unfold deleteReservation
+  split
+  · exact Keep.refl m
+  · split
+    · exact Keep.refl m
+    · simp only [M.write]
+      split
+      · exact ⟨rfl, rfl, rfl, id⟩
+      · exact ⟨rfl, rfl, rfl, id⟩
+
+theorem spec_abortIfTimeout (m : M) : (abortIfTimeout m).Spec m := by
+  unfold abortIfTimeout
+  split
+  · exact Frame.refl m
+  · split
+    · exact Frame.refl m
+    · simp only []
+      split
+      · exact keep_deleteReservation m
+      · exact (keep_deleteReservation m).trans (frame_abortWith _ _).toKeep
+
+theorem abortIfTimeout_cont {m m' : M} (h : abortIfTimeout m = .cont m') : m' = m := by
+  unfold abortIfTimeout at h
+  split at h
+  · cases h; rfl
+  · split at h
+    · cases h; rfl
+    · simp only [] at h
+      split at h <;> cases h
+
+theorem spec_preparePending (m : M) : (preparePending m).Spec m := by
+  unfold preparePending
+  split
+  · exact Frame.refl m
+  · split
+    · exact (frame_abortWith _ _).toKeep
+    · split
+      · exact (frame_abortWith _ _).toKeep
+      · rename_i p _
+        have h1 : Frame m (m.setSpec fun s => { s with podUID := p.uid }) :=
+          ⟨⟨rfl, rfl, rfl, id⟩, rfl, fun _ h => h, fun _ h => h⟩
+        have h2 := h1.trans (frame_jobUpdate _)
+        simp only []
+        split
+        · exact h2.toKeep
+        · exact spec_okOr _ ((h2.trans (frame_setStatus_noconds _ (fun s => { s with phase := Ph.running }) (fun _ => rfl))).trans (frame_statusUpdate _))
+
+theorem spec_boundByOther (m : M) (pod : Option Pod) : (boundByOther m pod).Spec m := by
+  unfold boundByOther
+  split
+  · exact Frame.refl m
+  · split
+    · exact (frame_abortWith _ _).toKeep
+    · split
+      · simp only []
+        split
+        · exact (frame_abortWith _ _).toKeep
+        · exact Frame.refl m
+      · exact Frame.refl m
+
+theorem boundByOther_cont {m m' : M} {pod : Option Pod} (h : boundByOther m pod = .cont m') : m' = m := by
+  unfold boundByOther at h
+  split at h
+  · cases h; rfl
+  · split at h
+    · cases h
+    · split at h
+      · simp only [] at h
+        split at h
+        · cases h
+        · cases h; rfl
+      · cases h; rfl
+
+theorem keep_createReservation (m : M) : Keep m (createReservation m) := by
+  unfold createReservation
+  split
+  · exact (frame_abortWith _ _).toKeep
+  · simp only [M.write]
+    split
+    · exact (frame_logw m _ _).toKeep.trans (frame_updateCondition _ _ ok1).toKeep
+    · split
+      · have h1 : Keep (m.logw .resvCreate) ((m.logw .resvCreate).setSpec fun s => { s with resvRef := true }) :=
+          ⟨rfl, rfl, rfl, id⟩
+        exact ((frame_logw m _ _).toKeep.trans h1).trans (frame_jobUpdate _).toKeep
+      · rename_i p _ _
+        have h0 : Keep m ({ m.logw .resvCreate with env := { (m.logw .resvCreate).env with resv := some (newResv p) } } : M) :=
+          ⟨rfl, rfl, rfl, id⟩
+        have h1 : Keep ({ m.logw .resvCreate with env := { (m.logw .resvCreate).env with resv := some (newResv p) } } : M)
+            (({ m.logw .resvCreate with env := { (m.logw .resvCreate).env with resv := some (newResv p) } } : M).setSpec fun s => { s with resvRef := true }) :=
+          ⟨rfl, rfl, rfl, id⟩
+        exact (h0.trans h1).trans (frame_jobUpdate _).toKeep
+
+/-- `setReservationOrder` may label the reservation: everything but `env.resv.orderLabel` is kept -/
+structure FrameR (m m' : M) : Prop extends Keep m m' where
+  rr : ∀ b, RR m b → RR m' b
+
+theorem setReservationOrder_spec (m : M) :
+    match setReservationOrder m with
+    | .stop m' => Keep m m'
+    | .cont m' => FrameR m m' := by
+  unfold setReservationOrder
+  split
+  · exact Keep.refl m
+  · split
+    · exact ⟨Keep.refl m, fun _ h => h⟩
+    · simp only [M.write]
+      split
+      · exact ⟨⟨rfl, rfl, rfl, id⟩, fun _ h => h⟩
+      · exact (frame_logw m _ _).toKeep
+
+theorem spec_syncScheduleFailed (m : M) (r : Resv) : (syncScheduleFailed m r).Spec m := by
+  unfold syncScheduleFailed
+  split
+  · split
+    · exact spec_okOr _ (frame_updateCondition _ _ ok2)
+    · exact Frame.refl m
+  · exact Frame.refl m
+
+theorem spec_preemptGate (m : M) (r : Resv) : (preemptGate m r).Spec m := by
+  unfold preemptGate
+  split
+  · exact Frame.refl m
+  · split
+    · exact (frame_abortWith _ _).toKeep
+    · simp only []
+      split
+      · exact ⟨⟨rfl, rfl, rfl, id⟩, rfl, fun _ h => h, fun _ h => h⟩
+      · exact ⟨rfl, rfl, rfl, id⟩
+
+theorem spec_prepareScheduleSuccess (m : M) (r : Resv) : (prepareScheduleSuccess m r).Spec m := by
+  unfold prepareScheduleSuccess
+  split
+  · exact Frame.refl m
+  · split
+    · exact Frame.refl m
+    · split
+      · exact (frame_abortWith _ _).toKeep
+      · exact spec_okOr _ ((frame_setStatus_noconds m (fun s => { s with node := r.node }) (fun _ => rfl)).trans
+          (frame_updateCondition _ _ ok2))
+
+theorem keep_waitPendingPod (m : M) : Keep m (waitPendingPod m) := by
+  unfold waitPendingPod
+  split
+  · exact (frame_abortWith _ _).toKeep
+  · split
+    · have hb := spec_boundByOther m (some ‹Pod›)
+      split
+      · rename_i heq; rw [heq] at hb; exact hb
+      · rename_i heq; rw [heq] at hb
+        exact (Frame.toKeep hb).trans (frame_updateCondition _ _ ok5).toKeep
+    · simp only []
+      have h1 := frame_setStatus_noconds m (fun s => { s with phase := Ph.succeeded, status := CT.complete, reason := Rs.none }) (fun _ => rfl)
+      have h2 := h1.trans (frame_setConds _ ⟨CT.podScheduled, true, Rs.none, 0⟩ ok5)
+      split
+      · exact (h2.trans (frame_statusUpdate _)).toKeep
+      · exact h2.toKeep
+
+theorem spec_waitBind (m : M) (r : Resv) : (waitBind m r).Spec m := by
+  unfold waitBind
+  split
+  · exact Frame.refl m
+  · split
+    · exact (frame_updateCondition _ _ ok6).toKeep
+    · exact Frame.refl m
+
+theorem spec_boundSuccess (m : M) : (boundSuccess m).Spec m := by
+  unfold boundSuccess
+  simp only []
+  have h1 := frame_setConds m ⟨CT.resvBound, true, Rs.none, 0⟩ ok8
+  split
+  · exact spec_okOr _ ((h1.trans (frame_setStatus_noconds _ (fun s => { s with podRef := true }) (fun _ => rfl))).trans (frame_statusUpdate _))
+  · exact h1
+
+theorem spec_waitReady (m : M) : (waitReady m).Spec m := by
+  unfold waitReady
+  split
+  · exact Frame.refl m
+  · split
+    · exact (frame_updateCondition _ _ ok7).toKeep
+    · exact Frame.refl m
+
+theorem spec_finish (m : M) : (finish m).Spec m := by
+  unfold finish
+  refine Res.Spec.bind (spec_okOr _ (frame_updateCondition _ _ ok7)) ?_
+  intro m' _
+  have h1 := frame_setStatus_noconds m' (fun s => { s with podRef := true, phase := Ph.succeeded, status := CT.complete, reason := Rs.none }) (fun _ => rfl)
+  have h2 := h1.trans (frame_setConds _ ⟨CT.podBound, true, Rs.none, 0⟩ ok6)
+  exact (h2.trans (frame_statusUpdate _)).toKeep
+
+end KoordVerif.C17
